@@ -304,4 +304,14 @@ REGISTRY = {
         'rule': 'LINE events inside the package on parametrised families at n, 2n, 4n(, 8n): doubling ratios and steps <= K * model cost',
         'assumptions': ['partial: a theorem cannot see CPython\'s step count; interpreter-level costs not proportional to model steps (string concatenation, list copies, repr of huge ints) are outside the model'],
     },
+    'C07': {
+        'theorems': ['PP.C07.timedelta', 'PP.C07.timedelta_ranges', 'PP.C07.dropWhile_zero_restores', 'PP.C07.time_fields',
+                     'PP.C07.datetime_date_only', 'PP.C07.chainmap_shortcut', 'PP.C07.deque_maxlen', 'PP.C04.sound'],
+        'modules': VALUE_MODULES + ['PP.Model.Std', 'PP.Props.C07'],
+        'sections': [{'name': 'stdlib', 'run': simple_sec('sec_stdlib', 'stdlib_section')},
+                     {'name': 'builtin-values', 'run': values_sec('builtin_values_section')}],
+        'trusted': VALUE_TRUSTED,
+        'rule': 'instances of every stdlib type with a bundled printer, boundary values, nesting contexts, layouts; totality of the built-in printers on value trees',
+        'assumptions': ['datetime / timedelta / timezone constructors are modelled by their documented normalisation (integer arithmetic); validated by eval of every printed instance'],
+    },
 }
